@@ -275,6 +275,9 @@ func defaultPolicy(ld *loaded, stubs map[string]*ssa.Function) *sym.Policy {
 			"github.com/ipld/go-ipld-prime/node/bindnode/registry",
 		},
 		Globals: map[string]func(*sym.Exec, types.Type) sym.Value{
+			"github.com/whyrusleeping/cbor-gen.CborNull": func(ex *sym.Exec, t types.Type) sym.Value {
+				return ex.ByteSlice([]byte{0xf6})
+			},
 			"github.com/ipld/go-ipld-prime.Null": func(ex *sym.Exec, t types.Type) sym.Value {
 				return ex.OpaqueIface("github.com/ipld/go-ipld-prime/datamodel.Null", t)
 			},
@@ -496,6 +499,7 @@ func runWorker(ld *loaded, h *harness, stubs map[string]*ssa.Function, tier stri
 		Preemptive:      h.opts["preempt"] != "",
 		PreemptSyncOnly: h.opts["preempt"] == "sync",
 		Race:            h.opts["race"] != "",
+		PreemptBound:    optInt(h, tier, "pb", 0),
 		Trace:           trace,
 		QueryMs:         map[string]int{"quick": 20000, "thorough": 120000}[tier],
 		CrossCheck:      []string{"cvc5"},
@@ -538,6 +542,7 @@ type knownFinding struct {
 	Kind     string   `json:"kind"`
 	Match    string   `json:"match"`               // substring of "pos | msg"
 	MatchAll []string `json:"match_all,omitempty"` // further substrings that must all occur
+	MatchTrace []string `json:"match_trace,omitempty"` // substrings that must all occur in the notes of the failing path (the history)
 	Status   string   `json:"status"`              // known | fixed
 	What     string   `json:"what"`
 	Commit   string   `json:"commit,omitempty"`
@@ -555,6 +560,14 @@ func knownClass(known []knownFinding, prop string, v *sym.Violation) int {
 		for _, m := range k.MatchAll {
 			if !strings.Contains(sig, m) {
 				all = false
+			}
+		}
+		if len(k.MatchTrace) > 0 {
+			tr := strings.Join(v.Trace, "\n")
+			for _, m := range k.MatchTrace {
+				if !strings.Contains(tr, m) {
+					all = false
+				}
 			}
 		}
 		if all {
@@ -789,7 +802,7 @@ func replayEngine(ld *loaded, h *harness, stubs map[string]*ssa.Function, v *sym
 	}
 	cfg := &sym.Config{Prog: ld.prog, Entry: h.fn, InitPkgs: []*ssa.Package{h.fn.Pkg}, Policy: pol,
 		LoopFuel: optInt(h, "quick", "fuel", 40), SchedBound: 1 << 20, Preemptive: h.opts["preempt"] != "", PreemptSyncOnly: h.opts["preempt"] == "sync",
-		FixedInputs: fixed, ForcedSched: sched, MaxPaths: 64, Race: h.opts["race"] != ""}
+		FixedInputs: fixed, ForcedSched: sched, MaxPaths: 64, Race: h.opts["race"] != "", PreemptBound: optInt(h, "quick", "pb", 0)}
 	if pf := h.opts["preemptfn"]; pf != "" {
 		pol.PreemptFns = map[string]bool{}
 		for _, f := range strings.Split(pf, ",") {
